@@ -298,7 +298,7 @@ def _update_through(holder_get, other_gets, token):
 def describe(objs, reg_pairs, kids_fn, tag_fn, id_fn, do_updates=True):
     """Structure of the loaded graph up to renaming of ids: objects are numbered in depth-first
     discovery order by *instance identity*; a second encounter of the same instance prints ^n.
-    reg= lists, in registry insertion order, the instance number each key maps to ('!' when the key
+    reg= lists, sorted by instance number, the instance each registry key maps to ('!' when the key
     differs from that object's own id, '?' when the instance is not reachable from the top level).
     upd= number of shared instances (>= 2 holders) on which an update through the first holder was
     observed through every other holder."""
@@ -329,7 +329,8 @@ def describe(objs, reg_pairs, kids_fn, tag_fn, id_fn, do_updates=True):
     reg = []
     for k, v in reg_pairs:
         n = num.get(id(v))
-        reg.append(('?' if n is None else str(n)) + ('' if k == id_fn(v) else '!'))
+        reg.append((len(num) if n is None else n, ('?' if n is None else str(n)) + ('' if k == id_fn(v) else '!')))
+    reg = [t for _, t in sorted(reg)]  # the property does not constrain registry insertion order
     shared = [n for n in sorted(holders) if len(holders[n]) >= 2]
     if do_updates:
         okc = 0
